@@ -286,6 +286,20 @@ def _dist_run(summary, env):
     return {"ok": ok, "dist": [int(x) for x in m.groups()]}
 
 
+def _vh_watched(res, seed, args, tr, name):
+    """run a recorder that carries a watchdog: exit code 3 = a solve that did not return (a violation of C04, with its input)"""
+    p = run_vh(args, check=False, timeout=6 * 3600)
+    if p.returncode == 3:
+        hang = json.load(open(tr + ".hang.json"))
+        res.violation(f"hang-{name}-s{seed}", {"kind": "ipm", "prop": "C04", "case": hang, "event": {"ev": "Hang"}},
+                      f"solve did not return within the watchdog limit ({name})")
+        return False
+    if p.returncode != 0:
+        sys.stdout.write(p.stdout[-2000:] + p.stderr[-3000:])
+        raise ToolError(f"{name} recorder failed (rc={p.returncode})")
+    return True
+
+
 def c04(tier, seed):
     res = ipm_generic("C04", tier, seed, [])
     wd = wd_of("C04")
@@ -319,14 +333,16 @@ def c04(tier, seed):
     add_cov(res, v2, meta["dim_cases"], read_ndjson(dm)[:2], "dimension_guard")
     # time limit reached mid-run through an injected sleep
     tr3, cs3, mt3 = [os.path.join(wd, "tl" + x) for x in (".ndjson", ".cases.ndjson", ".meta.json")]
-    run_vh(["timelimit", "--seed", seed, "--count", 30 if tier == "quick" else 300, "--out", tr3, "--cases", cs3, "--meta", mt3])
+    if not _vh_watched(res, seed, ["timelimit", "--seed", seed, "--count", 30 if tier == "quick" else 300, "--out", tr3, "--cases", cs3, "--meta", mt3], tr3, "timelimit"):
+        return res
     m3 = json.load(open(mt3))
     v3 = validate_family(res, "C04", tr3, cs3, "timelimit")
     add_cov(res, v3, m3["runs"], [], "timelimit")
     res.coverage["timelimit_status_histogram"] = m3["status_hist"]
     # scripted failures at the loop's decision points (scaling, refactorisation, affine/combined solves, step length)
     tr4, cs4, mt4 = [os.path.join(wd, "faults" + x) for x in (".ndjson", ".cases.ndjson", ".meta.json")]
-    run_vh(["faults", "--seed", seed, "--count", 400 if tier == "quick" else 8000, "--out", tr4, "--cases", cs4, "--meta", mt4])
+    if not _vh_watched(res, seed, ["faults", "--seed", seed, "--count", 400 if tier == "quick" else 8000, "--out", tr4, "--cases", cs4, "--meta", mt4], tr4, "faults"):
+        return res
     m4 = json.load(open(mt4))
     v4 = validate_family(res, "C04", tr4, cs4, "faults")
     add_cov(res, v4, m4["runs"], [], "faults")
@@ -334,7 +350,8 @@ def c04(tier, seed):
     res.coverage["fault_status_histogram"] = m4["status_hist"]
     # runs to the numerical limit (all tolerances zero, 500 iterations) on nonsymmetric-cone mixtures
     tr5, cs5, mt5 = [os.path.join(wd, "longrun" + x) for x in (".ndjson", ".cases.ndjson", ".meta.json")]
-    run_vh(["longrun", "--seed", seed, "--count", 80 if tier == "quick" else 1500, "--out", tr5, "--cases", cs5, "--meta", mt5])
+    if not _vh_watched(res, seed, ["longrun", "--seed", seed, "--count", 80 if tier == "quick" else 1500, "--out", tr5, "--cases", cs5, "--meta", mt5], tr5, "longrun"):
+        return res
     m5 = json.load(open(mt5))
     v5 = validate_family(res, "C04", tr5, cs5, "longrun")
     add_cov(res, v5, m5["runs"], [], "longrun")
